@@ -90,10 +90,12 @@ func (c *RpcServiceController) HandleDirective(
 		serviceID := d.LookupRpcServiceID()
 		// if we have no filters, match all.
 		matched := len(c.serviceIdPrefixes) == 0 && c.serviceIdRe == nil && len(c.serviceIdList) == 0
+		var stripPrefix string
 		if !matched && len(c.serviceIdPrefixes) != 0 {
 			for _, prefix := range c.serviceIdPrefixes {
 				if strings.HasPrefix(serviceID, prefix) {
 					matched = true
+					stripPrefix = prefix
 					break
 				}
 			}
@@ -121,8 +123,10 @@ func (c *RpcServiceController) HandleDirective(
 						return nil, nil
 					}
 					var invoker LookupRpcServiceValue = val //nolint:staticcheck
-					if c.stripServiceIdPrefix {
-						invoker = srpc.NewPrefixInvoker(invoker, c.serviceIdPrefixes)
+					// strip the prefix this lookup matched; a lookup that matched
+					// through the pattern or the list has none to strip.
+					if c.stripServiceIdPrefix && stripPrefix != "" {
+						invoker = srpc.NewPrefixInvoker(invoker, []string{stripPrefix})
 					}
 					return invoker, nil
 				},
